@@ -71,13 +71,14 @@ Example C03_nonvacuous :
               OAppend (p61 6 1); OPrepare 9 10; OAppend (p61 7 0)] in
   let l := run (init_log 3 false 0) ops in
   Forall valid_op ops /\
-  map ie_off (s_entries (nth 0 (l_segs l) (mkSeg 0 0 0 [] [] []))) = [0; 4] /\
+  map ie_off (s_entries (nth 0 (l_segs l) (mkSeg 0 0 0 [] [] []))) = [0; 3] /\
   map b_base (live l) = [0; 1; 3; 4; 8; 10] /\
-  read l false 3 61 = ROk (b_bytes (nth 0 (live l) dflt)) /\       (* starts at the entry for 0 *)
+  read l false 2 61 = ROk (b_bytes (nth 0 (live l) dflt)) /\       (* offset 2 is in batch [1,2]; the run starts at the entry for 0 *)
   read l true 7 200 = ROk (b_bytes (nth 4 (live l) dflt)) /\       (* offset 7 was dropped: first batch after *)
   read l true 9 0 = ROk (b_bytes (nth 4 (live l) dflt)) /\         (* flush window *)
   read l true 11 1 = ROutOfRange.
 Proof.
-  vm_compute. split; [|repeat split].
-  repeat constructor; intros; discriminate.
+  cbv zeta. split.
+  - repeat constructor; intros _; vm_compute; discriminate.
+  - vm_compute. repeat split.
 Qed.
